@@ -471,11 +471,31 @@ class Planner:
             if r.random() < 0.5:
                 return self.call("operator.add", self.ref(va), self.ref(va))
             return va
-        if k == 26:
+        if k == 26 and r.random() < 0.5:
             b = self.expr(M, depth - 1)
             if b is None or self.shape(b) != sh or not sh:
                 return None
             return self.call("ufl." + r.choice(["elem_mult", "elem_div"]), A, self.ref(b))
+        if k == 26:
+            # a conditional one of whose branches is a Zero that carries a free index
+            if len(sh) != 1 or self.nfi(a):
+                return None
+            s1 = self.scalar(M, depth - 1)
+            if s1 is None:
+                return None
+            i = self.call("ufl.Index", kind="index")
+            ai = self.call("operator.getitem", A, self.ref(i))
+            zi = self.call("operator.mul", 0, self.ref(ai)) if ai is not None else None
+            c = self.call("ufl.lt", self.ref(s1), 0)
+            if zi is None or c is None:
+                return None
+            br = [self.ref(ai), self.ref(zi)]
+            if r.random() < 0.5:
+                br.reverse()
+            cnd = self.call("ufl.conditional", self.ref(c), br[0], br[1])
+            if cnd is None:
+                return None
+            return self.call("operator.mul", self.ref(cnd), self.ref(ai))
         return a
 
     # ------------------------------------------------------ targeted families (DESIGN 2.1)
@@ -503,6 +523,22 @@ class Planner:
             return None
         p = r.choice(pools)
         picks = r.sample(p, min(len(p), r.randint(2, 4)))
+        if r.random() < 0.25:
+            # symmetric conditions between two terminals of the same kind
+            t1, t2 = picks[0], picks[1]
+            w = r.choice(["eq", "ne", "and", "or"])
+            if w in ("eq", "ne"):
+                c = self.call("ufl." + w, self.ref(t1), self.ref(t2))
+            else:
+                c1 = self.call("ufl.lt", self.ref(t1), 1)
+                c2 = self.call("ufl." + r.choice(["lt", "gt"]), self.ref(t2), 1)
+                c = self.call("ufl.And" if w == "and" else "ufl.Or", self.ref(c1), self.ref(c2)) if c1 is not None and c2 is not None else None
+                if c is not None and r.random() < 0.3:
+                    c = self.call("ufl.Not", self.ref(c)) or c
+            if c is not None:
+                e = self.call("ufl.conditional", self.ref(c), self.ref(t1), self.ref(t2))
+                if e is not None:
+                    return e
         e = picks[0]
         opn = r.choice(["mul", "add", "mix"])
         for q in picks[1:]:
@@ -634,6 +670,66 @@ class Planner:
             self.forms.append((f, rank, self.meshes.index(M)))
         return f
 
+    def mfs_form(self, M):
+        """A bilinear form over a MixedFunctionSpace (arguments with parts)."""
+        r = self.rng
+        if len(M["spaces"]) < 2:
+            return None
+        sp = r.sample(M["spaces"], 2)
+        W = self.call("ufl.MixedFunctionSpace", self.ref(sp[0]), self.ref(sp[1]), kind="space")
+        if W is None:
+            return None
+        tr, te = self.new(), self.new()
+        if not self.emit(["call", tr, "ufl.TrialFunctions", [self.ref(W)]]) or not self.emit(["call", te, "ufl.TestFunctions", [self.ref(W)]]):
+            return None
+        us = [self.new(), self.new()]
+        vs = [self.new(), self.new()]
+        self.emit(["unpack", None, self.ref(tr), us])
+        self.emit(["unpack", None, self.ref(te), vs])
+
+        def sc(x):
+            sh = self.shape(x)
+            if sh:
+                return self.call("operator.getitem", self.ref(x), ["t"] + [0] * len(sh))
+            return x
+
+        if any(x not in self.node.slots for x in us + vs):
+            return None
+        us = [sc(x) for x in us]
+        vs = [sc(x) for x in vs]
+        if any(x is None for x in us + vs):
+            return None
+        f = None
+        terms = [(0, 0), (1, 1), (0, 1), (1, 0)]
+        r.shuffle(terms)
+        for a, b in terms[: r.randint(2, 4)]:
+            e = self.call("operator.mul", self.ref(us[a]), self.ref(vs[b]))
+            if e is None:
+                continue
+            if r.random() < 0.4:
+                s0 = self.scalar(M, 1)
+                if s0 is not None:
+                    e = self.call("operator.mul", self.ref(s0), self.ref(e)) or e
+            kind, m = self.measure(M, kinds=("dx", "dx", "ds"))
+            if m is None:
+                continue
+            itg = self.call("operator.mul", self.ref(e), self.ref(m), kind="form")
+            if itg is None:
+                continue
+            f = itg if f is None else (self.call("operator.add", self.ref(f), self.ref(itg), kind="form") or f)
+        if f is not None:
+            self.forms.append((f, 2, self.meshes.index(M)))
+            # derived forms that iterate over form.arguments()
+            for fn in r.sample(["ufl.action", "ufl.adjoint", "ufl.extract_blocks", "ufl.lhs", "ufl.algorithms.expand_derivatives"], r.randint(1, 3)):
+                d = self.call(fn, self.ref(f), kind="form", keep_failed=self.cfg.get("keep_failed", False))
+                if d is not None and d in self.node.slots and isinstance(self.obj(d), Form):
+                    try:
+                        rk = len(self.obj(d).arguments())
+                    except BaseException:  # noqa: B036
+                        continue
+                    self.derived.append((d, rk, self.meshes.index(M)))
+        return f
+
     def shape_derivative_form(self, M):
         """Sum of >= 2 derivative(F_i, SpatialCoordinate, v_i): the only route into the
         coordinate-derivative grouping of group_form_integrals."""
@@ -712,6 +808,7 @@ class Planner:
             "expand_indices",
             "fd_integrals",
             "coordinate_derivative",
+            "derivative_cd",
             "remove_complex",
             "pickle",
         ]
@@ -749,6 +846,23 @@ class Planner:
             if d2 is None:
                 return d1
             return self.call("ufl.algorithms.expand_derivatives", self.ref(d2), kind="form", keep_failed=kf) or d2
+        if c == "derivative_cd":
+            sc = [x for x in co if self.shape(x) == ()]
+            if len(sc) < 3:
+                return None
+            u = r.choice(sc)
+            ws = r.sample([x for x in sc if x != u], min(len(sc) - 1, r.randint(2, 3)))
+            pairs = []
+            for w in ws:
+                dw = self.call(r.choice(["ufl.sin", "ufl.cos", "ufl.exp"]), self.ref(u))
+                if dw is not None:
+                    pairs.append([self.ref(w), self.ref(dw)])
+            if len(pairs) < 2:
+                return None
+            d = self.call("ufl.derivative", F, self.ref(u), kind="form", keep_failed=kf, coefficient_derivatives=["d", pairs])
+            if d is not None and r.random() < 0.5:
+                return self.call("ufl.algorithms.expand_derivatives", self.ref(d), kind="form", keep_failed=kf) or d
+            return d
         if c == "coordinate_derivative":
             vsp = [s for s in M["spaces"] if tuple(self.obj(s).value_shape) == (M["gdim"],)]
             if not vsp:
@@ -850,7 +964,9 @@ class Planner:
         depth = self.cfg.get("depth") or r.choice([2, 3, 3, 4])
         for _ in range(nforms):
             M = r.choice(self.meshes)
-            if self.fam.get("shape_derivative") and r.random() < self.fam["shape_derivative"]:
+            if self.fam.get("mixed_space") and r.random() < self.fam["mixed_space"]:
+                self.mfs_form(M)
+            elif self.fam.get("shape_derivative") and r.random() < self.fam["shape_derivative"]:
                 self.shape_derivative_form(M)
             elif self.fam.get("flat_form") and r.random() < self.fam["flat_form"]:
                 self.flat_form(M)
@@ -888,7 +1004,7 @@ class Planner:
         "ufl.algorithms.apply_function_pullbacks.apply_function_pullbacks",
         "ufl.algorithms.tree_format",
         "ufl.algorithms.remove_component_tensors.remove_component_tensors",
-        "ufl.algorithms.apply_restrictions.apply_default_restrictions",
+        "ufl.algorithms.apply_restrictions.apply_restrictions",
         "ufl.algorithms.change_to_reference_grad",
         "ufl.algorithms.extract_elements",
         "ufl.algorithms.extract_unique_elements",
